@@ -31,7 +31,7 @@ def _worker(args):
     except HarnessError as e:
         st = Stats()
         st.task_error = "HarnessError in task %r: %s" % (task.get("label", task), e)
-    except Exception:
+    except BaseException:  # noqa: also the hang guard's BaseException, so that a pool worker never dies
         st = Stats()
         st.task_error = "exception in task %r:\n%s" % (task.get("label", task), traceback.format_exc())
     return st
@@ -185,9 +185,15 @@ def finish(prop, tier, seed, level, stats, errors, t0, rule, assumptions, replay
     groups = {}
     for v in all_v:
         c = v["config"]
-        key = (v["oracle"], c.get("algo"), c.get("part"), c.get("K"), json.dumps(c.get("params"), sort_keys=True, default=str),
-               len(c.get("domain", [])), v.get("details", {}).get("where") if isinstance(v.get("details"), dict) else None,
-               v.get("details", {}).get("early") if isinstance(v.get("details"), dict) else None)
+        det = v.get("details") if isinstance(v.get("details"), dict) else {}
+        kf = match_known(prop, v, known)
+        # message class: the message without numbers, so that "round 3" and "round 5" of one failure group together
+        import re as _re
+
+        mclass = _re.sub(r"[-+]?[0-9][0-9.e+-]*", "#", v.get("message", ""))[:160]
+        key = (kf["id"] if kf else None, v["oracle"], c.get("algo"), c.get("part"), c.get("K"),
+               json.dumps(c.get("params"), sort_keys=True, default=str), len(c.get("domain", [])), det.get("where"), det.get("early"),
+               det.get("exc"), mclass)
         g = groups.get(key)
         if g is None:
             groups[key] = [v, v.get("count", 1)]
@@ -251,8 +257,7 @@ def finish(prop, tier, seed, level, stats, errors, t0, rule, assumptions, replay
         print("VIOLATION property=%s replay=%s" % (prop, path))
         print("  oracle=%s config=%s" % (v["oracle"], json.dumps(_jsonable(v["config"]))))
         print("  %s" % v["message"])
-        if exit_code != 2:
-            exit_code = 1
+        exit_code = 1  # a confirmed violation decides the verdict, also when some other task had a harness error
         if len(seen_keys) >= 8:
             break
     if vacuity and exit_code == 0:
